@@ -345,6 +345,44 @@ void CloseFile(void) {
     fclose(PrgFile);
 }
 
+#ifdef ASL_VERIF
+/* verification hook, inert unless ASL_VERIF_TRACE names a file: one line per emitted,
+   reserved or retracted chunk:
+   <pass> <file> <line> <segment> <granularity> <load address> <phase> <kind> <hex bytes>
+   bytes are those handed to the code file (after word turning) */
+
+void asl_verif_trace(char const* pKind, Byte const* pData, LongWord Len) {
+    static FILE*       pFile;
+    static Boolean     Checked;
+    LongWord           z;
+
+    if (!Checked) {
+        char const* pName = getenv("ASL_VERIF_TRACE");
+
+        Checked = True;
+        if (pName && *pName) {
+            pFile = fopen(pName, "a");
+        }
+    }
+    if (!pFile) {
+        return;
+    }
+    fprintf(pFile, "%d %s %ld %d %d %llx %llx %s ", (int)PassNo,
+            CurrFileName ? CurrFileName : "?", (long)CurrLine, (int)ActPC,
+            (int)Granularity(), (unsigned long long)ProgCounter(),
+            (unsigned long long)Phases[ActPC], pKind);
+    if (pData) {
+        for (z = 0; z < Len; z++) {
+            fprintf(pFile, "%02x", pData[z]);
+        }
+    } else {
+        fprintf(pFile, "%lu", (unsigned long)Len);
+    }
+    fputc('\n', pFile);
+    fflush(pFile);
+}
+#endif /* ASL_VERIF */
+
 /*--- erzeugten Code einer Zeile in Datei ablegen ---------------------------*/
 
 void WriteBytes(void) {
@@ -357,6 +395,9 @@ void WriteBytes(void) {
     if ((TurnWords != 0) != (HostBigEndian != 0)) {
         DreheCodes();
     }
+#ifdef ASL_VERIF
+    asl_verif_trace("code", BAsmCode, ErgLen);
+#endif
     if (((LongInt)LenSoFar) + ((LongInt)ErgLen) > 0xffff) {
         NewRecord(ProgCounter());
     }
@@ -386,6 +427,9 @@ void RetractWords(Word Cnt) {
         WrError(ErrNum_ParNotPossible);
         return;
     }
+#ifdef ASL_VERIF
+    asl_verif_trace("retract", NULL, ErgLen);
+#endif
 
     if (MakeUseList) {
         DeleteChunk(SegChunks + ActPC, ProgCounter() - Cnt, Cnt);
